@@ -43,6 +43,8 @@ def tasks(tier):
   T((2, 2), second_order='shampoo', block_size=4, merge_dims=2, graft='RMSPROP', start=1, momentum_decay=0.0)
   T((4,), second_order='shampoo', block_size=2, merge_dims=2, graft='SGD', skip_rank1=False, start=1, momentum_decay=0.0, weight_decay=0.125, wd_after=True)
   T((2, 2), second_order='shampoo', block_size=4, merge_dims=2, graft='NONE', momentum_decay=0.0, weight_decay=0.125, wd_after=False)
+  # statistics every 2nd step, roots every 3rd: a refresh step that is not a statistics step (roots must still be recomputed)
+  T((2, 2), second_order='shampoo', block_size=4, merge_dims=2, graft='NONE', fs=2, fp=3)
   # Sketchy second order
   T((3,), second_order='sketchy', sk_rank=1, merge_dims=2, graft='NONE', skip_rank1=False, decay=0.5)
   T((3,), second_order='sketchy', sk_rank=1, merge_dims=2, graft='SGD', skip_rank1=False, decay=1.0, start=1, sk_freq=2)
@@ -310,7 +312,7 @@ def np_root(C, p, per_block_max=None):
   return hv @ hv.T
 
 
-def concrete(task, seed=0, T=6, scales=None):
+def concrete(task, seed=0, T=8, scales=None):
   """real tearfree optimizer vs float64 numpy reference over a history from init"""
   c = tfh.full_cfg(task['cfg'])
   shape = tuple(task['shape'])
